@@ -45,13 +45,13 @@ def gen_case(rng):
         return tag[0]
     ordered = rng.random() < 0.35
     terms = []
-    for mid in (10, 11):
-        if rng.random() < 0.9:
+    for mid in (10, 11, 23):
+        if rng.random() < (0.9 if mid != 23 else 0.6):
             for _ in range(rng.randint(1, 2) if not ordered else rng.randint(1, 3)):
                 mask = 255 if rng.random() < 0.7 else rng.randrange(256)
                 terms.append({"kind": "call", "mid": mid, "opener": "next" if ordered else rng.choice(["each", "each", "some"]),
                               "pat": {"matcher": mask, "dbg": fresh(), "ops": chain(rng, fresh, ordered)}})
-    provided = rng.sample([14, 15, 16, 17, 18, 19], rng.randint(0, 2))
+    provided = rng.sample([14, 15, 16, 17, 18, 19, 24], rng.randint(0, 2))
     for mid in provided:
         how = rng.choice(["dfl", "dfl", "ret", "partial_mask"])
         if how == "dfl":
@@ -73,7 +73,10 @@ def gen_case(rng):
         i = rng.choice(live)
         r = rng.random()
         if r < 0.4:
-            evs.append({"base": ("call", i, rng.choice([10, 11]), rng.randrange(8))})
+            m = rng.choice([10, 11, 10, 11, 23, 25])
+            evs.append({"base": ("call", i, m, rng.randrange(8))})
+            if m in D.CONSUMING:
+                live.remove(i)
         else:
             m = rng.choice(D.PROVIDED_D)
             evs.append({"base": ("call", i, m, rng.randrange(8))})
@@ -88,7 +91,7 @@ def gen_case(rng):
 
 def nontrivial(case):
     direct = any(e["base"][0] == "call" and e["base"][2] in (10, 11) for e in case["events"])
-    deleg = any(e["base"][0] == "call" and e["base"][2] >= 14 and e["base"][3] % 4 >= 2 for e in case["events"])
+    deleg = any(e["base"][0] == "call" and e["base"][2] in (14, 15, 16, 17, 18, 19, 21, 22) and e["base"][3] % 4 >= 2 for e in case["events"])
     return direct and deleg
 
 
@@ -106,7 +109,7 @@ def run(tier, seed):
         for e in c["events"]:
             if e["base"][0] == "call":
                 m = e["base"][2]
-                dist["call:" + {10: "r0", 11: "r1", 14: "p_ref", 15: "p_mut", 16: "p_val", 17: "p_rc(sole)", 18: "p_arc(sole)",
+                dist["call:" + {10: "r0", 11: "r1", 14: "p_ref", 15: "p_mut", 16: "p_val", 17: "p_rc(sole)", 18: "p_arc(sole)", 23: "r_rc(sole)", 24: "p_rc2(sole)", 25: "r_rc(kept)", 26: "p_rc2(kept)",
                                  19: "p_pin", 21: "p_rc(kept)", 22: "p_arc(kept)"}.get(m, str(m))] += 1
                 if m >= 14:
                     dist[f"body-calls={e['base'][3] % 4}"] += 1
